@@ -233,7 +233,7 @@ def run(tier, seed, started):
     c = res.counters
     missing = [k for k in NEED_KINDS if not c.get(k)]
     if missing or len(res.sets.get('recovered_heights', ())) < 3:
-        raise common.Broken(f'vacuous C04 run: missing {missing}; heights '
+        common.vacuous(PROP, res, f'vacuous C04 run: missing {missing}; heights '
                             f'{res.sets.get("recovered_heights")}')
     coverage = {
         'evaluations': c['crash_points'],
